@@ -40,7 +40,7 @@ PosNames == {"not", "andL", "andR", "orL", "orR", "subL", "subR", "mulL", "mulR"
              "defInt", "defStr", "defBool", "defSliceInt", "defError", "defShort", "defVarUntyped", "asgInt", "asgStr", "asgBool", "asgSlice",
              "cmpPlusInt", "cmpPlusStr", "cmpMinus", "cmpMul", "len", "itoa", "exists", "read", "input", "writePath", "writeData", "writeAppend", "copySrc", "print", "range",
              "def2", "def3", "asg2", "def2Old", "def2OldL", "def2OldCall", "def2OldCallL", "exprStmt", "groupInt", "nestedArith", "nestedLogic"}
-FuncPosNames == {"retTop", "retIf", "retElse", "retFor", "retSwitch", "ret2nd", "retVoid", "retStr", "retInNestedIfFor"}
+FuncPosNames == {"retTop", "retIf", "retElse", "retFor", "retSwitch", "ret2nd", "retVoid", "retStr", "retInNestedIfFor", "def2Param", "def2ParamL", "def2ParamCall", "def2Local", "def2LocalL", "asgParam", "def2ParamSlice"}
 
 Pos(p, h) ==
   CASE p = "not" -> <<Def1("r", Not(h))>>
@@ -121,6 +121,14 @@ FuncPos(p, h) ==
     [] p = "ret2nd" -> <<Func("g", <<>>, <<"int", "string">>, <<RetS(<<I("1"), h>>)>>)>>
     [] p = "retVoid" -> <<Func("g", <<>>, <<>>, <<RetS(<<h>>)>>)>>
     [] p = "retStr" -> <<Func("g", <<>>, <<"string">>, <<RetS(<<h>>)>>)>>
+    \* a multi-name short definition at the top of a function body that names a PARAMETER (or a local of the body) again: the old name keeps its type (round 9)
+    [] p = "def2Param" -> <<Func("gp", <<Param("ps", "string"), Param("pi", "int")>>, <<>>, <<Def(<<"q9", "ps">>, <<I("1"), h>>), PrintS(<<Var("q9"), Var("ps")>>)>>), Func("g", <<>>, <<>>, <<ExprS(CallE("gp", <<StrL("a"), I("1")>>))>>)>>
+    [] p = "def2ParamL" -> <<Func("gp", <<Param("ps", "string"), Param("pi", "int")>>, <<>>, <<Def(<<"pi", "q9">>, <<h, StrL("n")>>), PrintS(<<Var("q9"), Var("pi")>>)>>), Func("g", <<>>, <<>>, <<ExprS(CallE("gp", <<StrL("a"), I("1")>>))>>)>>
+    [] p = "def2ParamCall" -> <<Func("gp", <<Param("ps", "string"), Param("pi", "int")>>, <<>>, <<Def(<<"q9", "ps">>, <<h>>), PrintS(<<Var("q9"), Var("ps")>>)>>), Func("g", <<>>, <<>>, <<ExprS(CallE("gp", <<StrL("a"), I("1")>>))>>)>>
+    [] p = "def2ParamSlice" -> <<Func("gp", <<Param("pl", "[]string")>>, <<>>, <<Def(<<"q9", "pl">>, <<I("1"), h>>), PrintS(<<Var("q9"), LenE(Var("pl"))>>)>>), Func("g", <<>>, <<>>, <<ExprS(CallE("gp", <<SliceLit("string", <<StrL("a")>>)>>))>>)>>
+    [] p = "def2Local" -> <<Func("g", <<>>, <<>>, <<Def1("loc", StrL("s")), Def(<<"q9", "loc">>, <<I("1"), h>>), PrintS(<<Var("q9"), Var("loc")>>)>>)>>
+    [] p = "def2LocalL" -> <<Func("g", <<>>, <<>>, <<Def1("loc", I("3")), Def(<<"loc", "q9">>, <<h, StrL("n")>>), PrintS(<<Var("q9"), Var("loc")>>)>>)>>
+    [] p = "asgParam" -> <<Func("gp", <<Param("ps", "string"), Param("pi", "int")>>, <<>>, <<Asg(<<"pi", "ps">>, <<I("2"), h>>), PrintS(<<Var("pi"), Var("ps")>>)>>), Func("g", <<>>, <<>>, <<ExprS(CallE("gp", <<StrL("a"), I("1")>>))>>)>>
     [] p = "retInNestedIfFor" -> <<Func("g", <<>>, <<"bool">>, <<For3(Def1("k", I("0")), CmpE("<", Var("k"), I("1")), Inc("k"), <<If1(Var("xb"), <<RetS(<<h>>)>>)>>), RetS(<<BoolL(FALSE)>>)>>)>>
 
 Contexts == IF Quick THEN {"top", "func", "for"} ELSE {"top", "func", "if", "for", "switch"}
